@@ -1,2 +1,2 @@
-import NipyVerif.Model.C08
-def main : IO Unit := NipyVerif.driverLoop NipyVerif.C08.run
+import NipyVerif.Model.C08B
+def main : IO Unit := NipyVerif.driverLoop NipyVerif.C08.runB
